@@ -1636,7 +1636,7 @@ func jointTemplates() []tmpl {
 		tMovePeer("move-peer(3->4)", 0, 3, 4),                                               // AddLearner, Enter{promote 4, demote 3}, Leave, RemovePeer
 		tMoveLeader("move-leader(1->4)", 0, 1, 4),                                           // AddLearner, Enter, TransferLeader, Leave, RemovePeer
 		tSetPeers("demote(2,3)", 0, false, 0, vp(1), lp(2), lp(3)),                          // Enter{demote 2,3}, Leave
-		tSetPeers("replace-voter-by-learner(3->4)", 0, false, 0, vp(1), vp(2), lp(4)),       // AddLearner, Enter{demote 3} (single change), Leave, RemovePeer
+		tSetPeers("replace-voter-by-learner(3->4)", 0, false, 0, vp(1), vp(2), lp(4)),       // AddLearner, demotion of 3 alone (a single change: Enter+Leave before the builder repair, DemoteFollower after it), RemovePeer
 		tSetPeers("add-voter+learner(4,5)", 0, false, 0, vp(1), vp(2), vp(3), vp(4), lp(5)), // AddLearner x2, promotion of 4 alone (single change)
 		tAddPeer("add-voter(4)", 0, vp(4)),                                                  // AddLearner, PromoteLearner
 		tRemove("remove-leader-peer(1)", 0, 1),                                              // TransferLeader, RemovePeer
